@@ -288,7 +288,9 @@ def gen_raw_case(rng, n_ops, kind=None, pool=None):
             sim.root = i if sim.root is None else sim._merge(sim.root, i)
             sim.heap.add(i)
         elif a == "single":
-            i = rng.choice(free); P(i); sim.det[i] = {i}
+            # now and then a whole forest of singletons, so that long chains can be linked
+            for i in rng.sample(free, min(len(free), rng.choice([1, 1, 1, 3, 5, 7]))):
+                P(i); sim.det[i] = {i}
         elif a == "merge-fresh":
             x, y = rng.sample(free, 2); P(x); P(y)
             sim.det[m(x, y)] = {x, y}
@@ -357,13 +359,35 @@ def gen_raw_case(rng, n_ops, kind=None, pool=None):
     # an FRG_ASSERT as the last op now and then: both sides must stop
     if rng.random() < 0.15:
         inner = [i for i in sim.heap if i != sim.root]
-        e = rng.choice(["merge-nonroot", "collapse-null", "collapse-broken-backlink", "merge-linked"])
+        e = rng.choice(["merge-nonroot", "collapse-null", "collapse-broken-backlink", "merge-linked", "merge-bad-child",
+                        "pop-root-linked", "pop-bad-child", "remove-bad-pred", "remove-bad-child"])
+        withch = [i for i in inner if sim.c[i] is not None]
         if e == "merge-nonroot" and inner and sim.root is not None: lines.append("m %d %d" % (sim.root, rng.choice(sorted(inner))))
         elif e == "collapse-null": lines.append("k -")
         elif e == "collapse-broken-backlink" and len(sim.det) >= 2:
             x, y = rng.sample(sorted(sim.det), 2); lines += ["w %d s %d" % (x, y), "k %d" % x]
         elif e == "merge-linked" and len(sim.det) >= 2:
             x, y = rng.sample(sorted(sim.det), 2); lines += ["w %d s %d" % (x, y), "m %d %d" % (x, y)]
+        elif e == "merge-bad-child" and len(sim.free()) >= 4:
+            # two fresh two-node trees; both roots get a child whose backlink does not point to its parent:
+            # whichever wins the final _merge, its FRG_ASSERT(h(sibling).backlink == ...) must stop
+            a1, b1, a2, b2 = rng.sample(sim.free(), 4)
+            for i in (a1, b1, a2, b2): P(i)
+            x = m(a1, b1); y = m(a2, b2)
+            lines += ["w %d b %d" % (sim.c[x], y), "w %d b %d" % (sim.c[y], x), "m %d %d" % (x, y)]
+        elif e == "pop-root-linked" and inner:
+            lines += ["w %d s %d" % (sim.root, rng.choice(sorted(inner))), "o"]
+        elif e == "pop-bad-child" and len(inner) >= 2:
+            ch = sim.c[sim.root]
+            lines += ["w %d b %d" % (ch, rng.choice(sorted(i for i in inner if i != ch))), "o"]
+        elif e == "remove-bad-pred" and len(sim.heap) >= 3:
+            x = rng.choice(sorted(inner))
+            others = [i for i in sim.heap if i != x and i != sim.b[x]]
+            if others: lines += ["w %d b %d" % (x, rng.choice(sorted(others))), "r %d" % x]
+        elif e == "remove-bad-child" and withch:
+            x = rng.choice(sorted(withch))
+            others = [i for i in sim.heap if i != x]
+            lines += ["w %d b %d" % (sim.c[x], rng.choice(sorted(others))), "r %d" % x]
     return lines
 
 def raw_corpus():
@@ -379,6 +403,19 @@ def raw_corpus():
     cs.append(("raw-merge-chain", ["pool 8 cmp 0 raw", "P 0 5", "P 1 3", "P 2 5", "P 3 9", "m 0 1", "m 2 3", "m 0 3", "R 3", "o", "o"]))
     cs.append(("raw-merge-assert", ["pool 8 cmp 0 raw", "P 0 5", "P 1 3", "m 0 1", "m 0 1"]))
     cs.append(("raw-collapse-null", ["pool 4 cmp 0 raw", "k -"]))
+    # every reachable FRG_ASSERT of _merge/_collapse/pop/remove pinned by a script that must stop exactly there
+    two = ["P 0 5", "P 1 3", "m 0 1", "P 2 9", "P 3 1", "m 2 3"]          # trees 0(child 1) and 2(child 3)
+    cs.append(("raw-assert-merge-child-1st", ["pool 6 cmp 0 raw"] + two + ["w 1 b 2", "w 3 b 0", "m 0 2"]))
+    cs.append(("raw-assert-merge-child-2nd", ["pool 6 cmp 0 raw"] + two + ["w 1 b 2", "w 3 b 0", "m 2 0"]))
+    cs.append(("raw-assert-merge-a-sibling", ["pool 6 cmp 0 raw"] + two + ["w 0 s 2", "m 0 2"]))
+    cs.append(("raw-assert-merge-b-backlink", ["pool 6 cmp 0 raw"] + two + ["w 2 b 0", "m 0 2"]))
+    cs.append(("raw-assert-collapse-partner", ["pool 6 cmp 0 raw"] + two + ["w 0 s 2", "k 0"]))
+    cs.append(("raw-assert-pop-root-linked", ["pool 6 cmp 0 raw", "p 0 5", "p 1 3", "p 2 4", "w 0 s 1", "o"]))
+    cs.append(("raw-assert-pop-child", ["pool 6 cmp 0 raw", "p 0 5", "p 1 3", "p 2 4", "w 2 b 1", "o"]))
+    cs.append(("raw-assert-remove-pred", ["pool 6 cmp 0 raw", "p 0 5", "p 1 3", "p 2 4", "p 3 1", "w 2 b 1", "r 2"]))
+    cs.append(("raw-assert-remove-child", ["pool 6 cmp 0 raw", "p 0 9", "p 1 3", "p 2 5", "o", "p 3 8", "w 1 b 3", "r 2"]))
+    cs.append(("raw-assert-push-child", ["pool 6 cmp 0 raw", "p 0 5", "p 1 3", "R -", "p 0 7"]))
+    cs.append(("raw-assert-push-backlink", ["pool 6 cmp 0 raw", "p 0 5", "p 1 3", "p 1 7"]))
     return cs
 
 def raw_exhaustive_collapse(max_k, prios=(1, 2), kind=0, two_level=False):
